@@ -15,6 +15,7 @@ import (
 	"fmt"
 	"net"
 	"os"
+	"strings"
 	"testing"
 	"time"
 
@@ -43,6 +44,9 @@ type vmeSUT struct {
 	// the lane was in the cache when the cache was dropped, and no snapshot event has
 	// re-established the lane since
 	lost map[string]map[string]bool
+	// set by apply: a finish without a real snapshot succeeded although the leader held no
+	// open cached lane of the message when it was called
+	finishMiss string
 }
 
 func (s *vmeSUT) begin(n int) {
@@ -58,7 +62,7 @@ func (s *vmeSUT) channel(m string) string {
 }
 func (s *vmeSUT) msgNo(m string) string { return fmt.Sprintf("cmn-%d-%s", s.n, m) }
 
-func vmePayload(typ, p string, r int64) []byte {
+func vmePayload(typ, p string, r int64, nul bool, variant int64) []byte {
 	snap := func() map[string]any { return map[string]any{"kind": "text", "text": p} }
 	var v map[string]any
 	switch typ {
@@ -75,10 +79,17 @@ func vmePayload(typ, p string, r int64) []byte {
 	case "cancel":
 		v = map[string]any{}
 	}
-	if (typ == "close" || typ == "error" || typ == "cancel" || typ == "finish") && p != "" {
+	terminal := typ == "close" || typ == "error" || typ == "cancel" || typ == "finish"
+	if terminal && p != "" {
 		v["snapshot"] = snap()
 	}
+	if terminal && p == "" && nul {
+		v["snapshot"] = nil // an optional field marshalled without omitempty: "snapshot":null
+	}
 	raw, _ := json.Marshal(v)
+	if terminal && p == "" && nul && variant%2 == 0 {
+		raw = []byte(strings.Replace(string(raw), `"snapshot":null`, `"snapshot" :  null `, 1))
+	}
 	return raw
 }
 
@@ -164,7 +175,10 @@ func (s *vmeSUT) apply(ev map[string]any) (res map[string]any, silent bool, err 
 		e := kit.Map(ev, "e")
 		typ, p, key := kit.Str(e, "type"), kit.Str(e, "p"), kit.Str(e, "key")
 		dropped := []string{}
+		s.finishMiss = ""
+		openBefore := -1
 		if typ == "finish" && p == "" {
+			openBefore = len(s.openCached(m))
 			rows, err := s.durable(m)
 			if err != nil {
 				return nil, false, err
@@ -186,7 +200,7 @@ func (s *vmeSUT) apply(ev map[string]any) (res map[string]any, silent bool, err 
 			ChannelID: s.channel(m), ChannelType: vmeChanType, ClientMsgNo: s.msgNo(m),
 			EventID: kit.Str(e, "id"), EventKey: key, EventType: "stream." + typ,
 			Visibility: metadb.VisibilityPublic, OccurredAt: 1000 + s.clock, UpdatedAt: 2000 + s.clock,
-			Payload: vmePayload(typ, p, kit.Int(e, "r")),
+			Payload: vmePayload(typ, p, kit.Int(e, "r"), kit.Bool(e, "nul"), s.clock/2),
 		})
 		if errors.Is(err, ErrMessageEventStreamCacheMiss) {
 			return map[string]any{"ok": false, "key": "", "seq": 0, "status": ""}, false, nil
@@ -204,6 +218,10 @@ func (s *vmeSUT) apply(ev map[string]any) (res map[string]any, silent bool, err 
 			if st, ok := s.openCached(m)[key]; ok && st.LastEventID == kit.Str(e, "id") && vmeText(st.SnapshotPayload) == p {
 				s.lost[m][key] = false // the lane's complete content is cached again
 			}
+		}
+		if openBefore == 0 {
+			s.finishMiss = fmt.Sprintf("finish %s of %s (payload without a snapshot, explicit null=%v) succeeded (lane %s seq %d %s) although the leader held no open cached lane of the message: nothing was flushed, a completed projection was written",
+				kit.Str(e, "id"), m, kit.Bool(e, "nul"), r.EventKey, r.MsgEventSeq, r.Status)
 		}
 		if typ == "finish" {
 			s.lost[m] = map[string]bool{} // the stream is complete: what was dropped was dropped by this finish
@@ -344,10 +362,10 @@ func TestVerifMessageEventLeader(t *testing.T) {
 		caseNo++
 		sut.begin(caseNo)
 		script := []map[string]any{
-			kit.Ev("LeaderAppend", "m", "m1", "e", map[string]any{"id": "e1", "key": "main", "type": "delta", "p": "a", "r": 0}),
+			kit.Ev("LeaderAppend", "m", "m1", "e", map[string]any{"id": "e1", "key": "main", "type": "delta", "p": "a", "r": 0, "nul": false}),
 			kit.Ev("CacheLoss"),
-			kit.Ev("LeaderAppend", "m", "m1", "e", map[string]any{"id": "e2", "key": "main", "type": "delta", "p": "b", "r": 0}),
-			kit.Ev("LeaderAppend", "m", "m1", "e", map[string]any{"id": "e3", "key": "main", "type": "finish", "p": "", "r": 1}),
+			kit.Ev("LeaderAppend", "m", "m1", "e", map[string]any{"id": "e2", "key": "main", "type": "delta", "p": "b", "r": 0, "nul": false}),
+			kit.Ev("LeaderAppend", "m", "m1", "e", map[string]any{"id": "e3", "key": "main", "type": "finish", "p": "", "r": 1, "nul": false}),
 		}
 		var last map[string]any
 		silent := false
@@ -394,8 +412,15 @@ replay:
 						map[string]any{"behaviour": b, "step": si, "observed": res})
 					break
 				}
+				if sut.finishMiss != "" {
+					rep.Violate("C40", "finish-fail-closed", fmt.Sprintf("step %d: %s", si, sut.finishMiss), map[string]any{"behaviour": b, "step": si})
+					break
+				}
 				if kit.Str(st.Ev, "a") == "LeaderAppend" {
 					rep.Cover("leader:" + kit.Str(kit.Map(st.Ev, "e"), "type"))
+					if e := kit.Map(st.Ev, "e"); kit.Bool(e, "nul") {
+						rep.Cover("null-snapshot:" + kit.Str(e, "type"))
+					}
 					if kit.Str(kit.Map(st.Ev, "e"), "type") == "finish" {
 						if kit.Bool(kit.Map(st.Ev, "res"), "ok") {
 							rep.Cover("finish:ok")
@@ -443,8 +468,34 @@ replay:
 	toks := []string{"a", "b", "cc", "d"}
 	snaps := []string{"S", "TT", "U"}
 	traces := env.Pick(60, 600)
+	mkE := func(id, key, typ, p string, r int, nul bool) map[string]any {
+		return map[string]any{"id": id, "key": key, "type": typ, "p": p, "r": r, "nul": nul}
+	}
+	// Scripted traces: terminal payloads that say "snapshot": null, with and without open
+	// cached lanes (acknowledged deltas lost with the cache; a leader that never saw the
+	// message; a lane already final; an open cached lane).
+	scripts := [][]map[string]any{
+		{
+			kit.Ev("LeaderAppend", "m", "m1", "e", mkE("e1", "main", "delta", "a", 0, false)),
+			kit.Ev("LeaderAppend", "m", "m1", "e", mkE("e2", "main", "delta", "b", 0, false)),
+			kit.Ev("CacheLoss"),
+			kit.Ev("LeaderAppend", "m", "m1", "e", mkE("e3", "main", "finish", "", 3, true)),
+			kit.Ev("LeaderAppend", "m", "m1", "e", mkE("e4", "main", "finish", "", 3, false)),
+		},
+		{
+			kit.Ev("LeaderAppend", "m", "m2", "e", mkE("e1", "main", "finish", "", 1, true)),
+			kit.Ev("LeaderAppend", "m", "m2", "e", mkE("e2", "main", "delta", "a", 0, false)),
+			kit.Ev("LeaderAppend", "m", "m2", "e", mkE("e3", "main", "close", "", 2, true)),
+			kit.Ev("LeaderAppend", "m", "m2", "e", mkE("e4", "main", "finish", "", 1, true)),
+		},
+		{
+			kit.Ev("LeaderAppend", "m", "m1", "e", mkE("e1", "aux", "delta", "a", 0, false)),
+			kit.Ev("LeaderAppend", "m", "m1", "e", mkE("e2", "main", "finish", "", 2, true)),
+			kit.Ev("LeaderAppend", "m", "m1", "e", mkE("e3", "main", "finish", "", 2, true)),
+		},
+	}
 driver:
-	for tr := 0; tr < traces; tr++ {
+	for tr := 0; tr < traces+len(scripts); tr++ {
 		caseNo++
 		sut.begin(caseNo)
 		sut.node.messageEventStreamCache.resetAfterRestore()
@@ -457,21 +508,29 @@ driver:
 		pool := ids[:3+rng.Intn(len(ids)-2)]
 		var hist []map[string]any
 		steps := 8 + rng.Intn(25)
+		if tr < len(scripts) {
+			steps = len(scripts[tr])
+		}
 		for i := 0; i < steps; i++ {
 			var ev map[string]any
-			if rng.Intn(9) == 0 {
+			if tr < len(scripts) {
+				ev = scripts[tr][i]
+			} else if rng.Intn(9) == 0 {
 				ev = kit.Ev("CacheLoss")
 			} else {
 				typ := types[rng.Intn(len(types))]
-				e := map[string]any{"id": pool[rng.Intn(len(pool))], "key": vmeLaneKeys[rng.Intn(len(vmeLaneKeys))], "type": typ, "p": "", "r": 0}
+				e := map[string]any{"id": pool[rng.Intn(len(pool))], "key": vmeLaneKeys[rng.Intn(len(vmeLaneKeys))], "type": typ, "p": "", "r": 0, "nul": false}
 				switch typ {
 				case "delta":
 					e["p"] = toks[rng.Intn(len(toks))]
 				case "snapshot":
 					e["p"] = snaps[rng.Intn(len(snaps))]
 				case "close", "error", "cancel", "finish":
-					if rng.Intn(4) == 0 {
+					switch rng.Intn(5) {
+					case 0:
 						e["p"] = snaps[rng.Intn(len(snaps))]
+					case 1, 2:
+						e["nul"] = true
 					}
 					e["r"] = rng.Intn(4)
 					if typ == "finish" {
@@ -487,6 +546,10 @@ driver:
 			}
 			ev["res"] = res
 			hist = append(hist, ev)
+			if sut.finishMiss != "" {
+				rep.Violate("C40", "finish-fail-closed", sut.finishMiss, map[string]any{"events": hist})
+				break
+			}
 			if silent {
 				rep.Cover("finish:silent-drop")
 				reportSilent(fmt.Sprintf("%s succeeded and wrote a completed projection although acknowledged cache-only content lost with the leader cache was never flushed", kit.JSON(ev)),
